@@ -31,6 +31,7 @@ import Fir.Proofs.SimdPassIntLemmas
 import Fir.Proofs.SimdU16x4ALemmas
 import Fir.Proofs.SimdU16x2ALemmas
 import Fir.Proofs.SimdU16x1ALemmas
+import Fir.Proofs.SimdU8x1ALemmas
 
 namespace Fir.C02
 open Fir
@@ -714,5 +715,45 @@ theorem u16x1_avx2_source_as_modelled :
     Fir.Gen.u16x1_avx2_one_row_skeleton = "normalizer.precision() ; _mm256_set1_epi64x(0) ; chunks_exact(16) ; remainder() ; _mm256_set_epi64x(k[9] as i64, k[8] as i64, k[1] as i64, k[0] as i64) ; _mm256_set_epi64x(k[11] as i64, k[10] as i64, k[3] as i64, k[2] as i64) ; _mm256_set_epi64x(k[13] as i64, k[12] as i64, k[5] as i64, k[4] as i64) ; _mm256_set_epi64x(k[15] as i64, k[14] as i64, k[7] as i64, k[6] as i64) ; simd_utils::loadu_si256(src_row, x) ; _mm256_shuffle_epi8(source, l0l1_shuffle) ; _mm256_add_epi64(ll_sum, _mm256_mul_epi32(l0l1_i64x4, coeff0189_i64x4)) ; _mm256_shuffle_epi8(source, l2l3_shuffle) ; _mm256_add_epi64(ll_sum, _mm256_mul_epi32(l2l3_i64x4, coeff23ab_i64x4)) ; _mm256_shuffle_epi8(source, l4l5_shuffle) ; _mm256_add_epi64(ll_sum, _mm256_mul_epi32(l4l5_i64x4, coeff45cd_i64x4)) ; _mm256_shuffle_epi8(source, l6l7_shuffle) ; _mm256_add_epi64(ll_sum, _mm256_mul_epi32(l6l7_i64x4, coeff67ef_i64x4)) ; chunks_exact(8) ; remainder() ; _mm256_set_epi64x(k[5] as i64, k[4] as i64, k[1] as i64, k[0] as i64) ; _mm256_set_epi64x(k[7] as i64, k[6] as i64, k[3] as i64, k[2] as i64) ; _mm256_set_m128i(simd_utils::loadl_epi64(src_row, x + 4), simd_utils::loadl_epi64(src_row, x),) ; _mm256_shuffle_epi8(source, l0l1_shuffle) ; _mm256_add_epi64(ll_sum, _mm256_mul_epi32(l0l1_i64x4, coeff0145_i64x4)) ; _mm256_shuffle_epi8(source, l2l3_shuffle) ; _mm256_add_epi64(ll_sum, _mm256_mul_epi32(l2l3_i64x4, coeff2367_i64x4)) ; chunks_exact(4) ; remainder() ; _mm256_set_epi64x(k[3] as i64, k[2] as i64, k[1] as i64, k[0] as i64) ; _mm256_set_m128i(simd_utils::loadl_epi32(src_row, x + 2), simd_utils::loadl_epi32(src_row, x),) ; _mm256_shuffle_epi8(source, l0l1_shuffle) ; _mm256_add_epi64(ll_sum, _mm256_mul_epi32(l0l1_i64x4, coeff0123_i64x4)) ; chunks_exact(2) ; remainder() ; _mm256_set_epi64x(0, 0, k[1] as i64, k[0] as i64) ; _mm256_set_m128i(_mm_setzero_si128(), simd_utils::loadl_epi32(src_row, x)) ; _mm256_shuffle_epi8(source, l0l1_shuffle) ; _mm256_add_epi64(ll_sum, _mm256_mul_epi32(l0l1_i64x4, coeff01_i64x4)) ; _mm256_set1_epi64x(k as i64) ; _mm256_set_epi64x(0, 0, 0, src_row.get_unchecked(x).0 as i64) ; _mm256_add_epi64(ll_sum, _mm256_mul_epi32(source, coeff0_i64x4)) ; _mm256_storeu_si256(ll_buf.as_mut_ptr() as *mut __m256i, ll_sum) ; normalizer.clip(ll_buf.iter().sum::<i64>() + half_error)" ∧
     Fir.Gen.u16x1_avx2_four_rows_skeleton = "normalizer.precision() ; _mm256_set1_epi64x(0) ; chunks_exact(8) ; remainder() ; _mm256_set_epi64x(k[1] as i64, k[0] as i64, k[1] as i64, k[0] as i64) ; _mm256_set_epi64x(k[3] as i64, k[2] as i64, k[3] as i64, k[2] as i64) ; _mm256_set_epi64x(k[5] as i64, k[4] as i64, k[5] as i64, k[4] as i64) ; _mm256_set_epi64x(k[7] as i64, k[6] as i64, k[7] as i64, k[6] as i64) ; _mm256_set_m128i(simd_utils::loadu_si128(src_rows[i * 2 + 1], x), simd_utils::loadu_si128(src_rows[i * 2], x),) ; _mm256_shuffle_epi8(source, l0l1_shuffle) ; _mm256_add_epi64(*sum, _mm256_mul_epi32(l0l1_i64x4, coeff01_i64x4)) ; _mm256_shuffle_epi8(source, l2l3_shuffle) ; _mm256_add_epi64(*sum, _mm256_mul_epi32(l2l3_i64x4, coeff23_i64x4)) ; _mm256_shuffle_epi8(source, l4l5_shuffle) ; _mm256_add_epi64(*sum, _mm256_mul_epi32(l4l5_i64x4, coeff45_i64x4)) ; _mm256_shuffle_epi8(source, l6l7_shuffle) ; _mm256_add_epi64(*sum, _mm256_mul_epi32(l6l7_i64x4, coeff67_i64x4)) ; chunks_exact(4) ; remainder() ; _mm256_set_epi64x(k[1] as i64, k[0] as i64, k[1] as i64, k[0] as i64) ; _mm256_set_epi64x(k[3] as i64, k[2] as i64, k[3] as i64, k[2] as i64) ; _mm256_set_m128i(simd_utils::loadl_epi64(src_rows[i * 2 + 1], x), simd_utils::loadl_epi64(src_rows[i * 2], x),) ; _mm256_shuffle_epi8(source, l0l1_shuffle) ; _mm256_add_epi64(*sum, _mm256_mul_epi32(l0l1_i64x4, coeff01_i64x4)) ; _mm256_shuffle_epi8(source, l2l3_shuffle) ; _mm256_add_epi64(*sum, _mm256_mul_epi32(l2l3_i64x4, coeff23_i64x4)) ; chunks_exact(2) ; remainder() ; _mm256_set_epi64x(k[1] as i64, k[0] as i64, k[1] as i64, k[0] as i64) ; _mm256_set_m128i(simd_utils::loadl_epi32(src_rows[i * 2 + 1], x), simd_utils::loadl_epi32(src_rows[i * 2], x),) ; _mm256_shuffle_epi8(source, l0l1_shuffle) ; _mm256_add_epi64(*sum, _mm256_mul_epi32(l0l1_i64x4, coeff01_i64x4)) ; _mm256_set1_epi64x(k as i64) ; _mm256_set_epi64x(0, src_rows[i * 2 + 1].get_unchecked(x).0 as i64, 0, src_rows[i * 2].get_unchecked(x).0 as i64,) ; _mm256_add_epi64(*sum, _mm256_mul_epi32(source, coeff0_i64x4)) ; _mm256_storeu_si256(ll_buf.as_mut_ptr() as *mut __m256i, ll) ; normalizer.clip(ll_buf[0] + ll_buf[1] + half_error) ; normalizer.clip(ll_buf[2] + ll_buf[3] + half_error)" := by
   constructor <;> rfl
+
+/-! ### single-channel 8-bit images on AVX2 (src/convolution/u8x1/avx2.rs)
+
+    Eight 32-bit lanes started at `1 << (precision - 4)`; a 16-step is the SSE4.1 8-step in each 128-bit half (`_mm256_cvtepu8_epi16`,
+    `_mm256_madd_epi16`), at most one 8-step goes to the low half, `hsum_i32x8_avx2` sums the lanes with wrapping additions, the last
+    0..7 coefficients are scalar, the portable `Normalizer16::clip` finishes.  Both kernels do the same per row. -/
+
+theorem u8x1_avx2_eq_portable (p : Nat) (hp4 : 4 ≤ p) (row : List Int) (start : Nat) (ks : List Int) :
+    Fir.SimdU8x1A.pixelA p row start ks = clip8 (2 ^ (p - 1) + Fir.SimdU8x1.dot1 row ks start) p :=
+  Fir.Proofs.U8x1A.pixelA_eq_portable p hp4 row start ks
+
+theorem u8x1_avx2_eq_sse4 (p : Nat) (hp4 : 4 ≤ p) (row : List Int) (start : Nat) (ks : List Int) :
+    Fir.SimdU8x1A.pixelA p row start ks = Fir.SimdU8x1.pixel p row start ks := by
+  rw [u8x1_avx2_eq_portable p hp4, u8x1_sse4_eq_portable]
+
+theorem u8x1_avx2_source_as_modelled :
+    Fir.Gen.u8x1_avx2_one_row_skeleton = "_mm_setzero_si128() ; normalizer.precision() ; chunks_exact(16) ; remainder() ; _mm256_loadu_si256(k.as_ptr() as *const __m256i) ; simd_utils::loadu_si128(src_row, x) ; _mm256_cvtepu8_epi16(pixels_u8x16) ; _mm256_add_epi32(result_i32x8, _mm256_madd_epi16(pixels_i16x16, coeffs_i16x16),) ; chunks_exact(8) ; remainder() ; next() ; _mm_loadu_si128(k.as_ptr() as *const __m128i) ; simd_utils::loadl_epi64(src_row, x) ; _mm_cvtepu8_epi16(pixels_u8x8) ; _mm256_set_m128i(zero, _mm_madd_epi16(pixels_i16x8, coeffs_i16x8)) ; hsum_i32x8_avx2(result_i32x8) ; normalizer.clip(result_i32) | result_i32 += src_row.get_unchecked(x).0 as i32 * coeff_i32" ∧
+    Fir.Gen.u8x1_avx2_four_rows_skeleton = "_mm_setzero_si128() ; normalizer.precision() ; chunks_exact(16) ; remainder() ; _mm256_loadu_si256(k.as_ptr() as *const __m256i) ; simd_utils::loadu_si128(src_rows[i], x) ; _mm256_cvtepu8_epi16(pixels_u8x16) ; _mm256_add_epi32(result_i32x8x4[i], _mm256_madd_epi16(pixels_i16x16, coeffs_i16x16),) ; chunks_exact(8) ; remainder() ; next() ; _mm_loadu_si128(k.as_ptr() as *const __m128i) ; simd_utils::loadl_epi64(src_rows[i], x) ; _mm_cvtepu8_epi16(pixels_u8x8) ; _mm256_set_m128i(zero, _mm_madd_epi16(pixels_i16x8, coeffs_i16x8)) ; hsum_i32x8_avx2(v) ; normalizer.clip(v) | result_i32x4[i] += src_rows[i].get_unchecked(x).0.to_owned() as i32 * coeff_i32" ∧
+    Fir.Gen.u8x1_avx2_hsum8_skeleton = "hsum_i32x8_avx2(v: __m256i) ; _mm_add_epi32(_mm256_castsi256_si128(v), _mm256_extracti128_si256::<1>(v)) ; hsum_epi32_avx(sum128)" ∧
+    Fir.Gen.u8x1_avx2_hsum4_skeleton = "hsum_epi32_avx(x: __m128i) ; _mm_unpackhi_epi64(x, x) ; _mm_add_epi32(hi64, x) ; _mm_shuffle_epi32::<I>(sum64) ; _mm_add_epi32(sum64, hi32) ; _mm_cvtsi128_si32(sum32) | const I: i32 = (2 << 6) | (3 << 4) | 1" := by
+  refine ⟨rfl, rfl, rfl, rfl⟩
+
+/-! ### two-channel 8-bit images on AVX2, four-row kernel (src/convolution/u8x2/avx2.rs)
+
+    Two rows per 256-bit register, one per 128-bit half, with the SSE4.1 four-row kernel's instructions per half: both halves of
+    both masks are the SSE4.1 masks, the call sequence and `set_dst_pixel` (the same saturating join) are pinned - so each of its rows
+    is `Fir.SimdU8x2.pixelR`, to which `u8x2_sse4_four_rows_eq_portable` applies; the rows of four-row blocks are executed through
+    that model against the AVX2 kernel's output.  (Its one-row kernel is tied by correspondence only.) -/
+
+theorem u8x2_avx2_four_rows_masks :
+    Fir.Gen.u8x2_avx2_four_sh1_lo = Fir.Gen.u8x2_sse4_four_sh1 ∧ Fir.Gen.u8x2_avx2_four_sh1_hi = Fir.Gen.u8x2_sse4_four_sh1 ∧
+    Fir.Gen.u8x2_avx2_four_sh2_lo = Fir.Gen.u8x2_sse4_four_sh2 ∧ Fir.Gen.u8x2_avx2_four_sh2_hi = Fir.Gen.u8x2_sse4_four_sh2 := by
+  refine ⟨?_, ?_, ?_, ?_⟩ <;> decide
+
+theorem u8x2_avx2_four_rows_source_as_modelled :
+    Fir.Gen.u8x2_avx2_four_rows_skeleton = "normalizer.precision() ; _mm256_set1_epi32(1 << (precision - 2)) ; chunks_exact(8) ; remainder() ; simd_utils::ptr_i16_to_256set1_epi64x(k, 0) ; simd_utils::ptr_i16_to_256set1_epi64x(k, 4) ; _mm256_castsi128_si256(simd_utils::loadu_si128(src_rows[0], x)) ; simd_utils::loadu_si128(src_rows[1], x) ; _mm256_shuffle_epi8(source, sh1) ; _mm256_add_epi32(sss0, _mm256_madd_epi16(pix, mmk0)) ; _mm256_shuffle_epi8(source, sh2) ; _mm256_add_epi32(sss0, _mm256_madd_epi16(pix, mmk1)) ; _mm256_castsi128_si256(simd_utils::loadu_si128(src_rows[2], x)) ; simd_utils::loadu_si128(src_rows[3], x) ; _mm256_shuffle_epi8(source, sh1) ; _mm256_add_epi32(sss1, _mm256_madd_epi16(pix, mmk0)) ; _mm256_shuffle_epi8(source, sh2) ; _mm256_add_epi32(sss1, _mm256_madd_epi16(pix, mmk1)) ; chunks_exact(4) ; remainder() ; simd_utils::ptr_i16_to_256set1_epi64x(k, 0) ; _mm256_castsi128_si256(simd_utils::loadl_epi64(src_rows[0], x)) ; simd_utils::loadl_epi64(src_rows[1], x) ; _mm256_shuffle_epi8(source, sh1) ; _mm256_add_epi32(sss0, _mm256_madd_epi16(pix, mmk)) ; _mm256_castsi128_si256(simd_utils::loadl_epi64(src_rows[2], x)) ; simd_utils::loadl_epi64(src_rows[3], x) ; _mm256_shuffle_epi8(source, sh1) ; _mm256_add_epi32(sss1, _mm256_madd_epi16(pix, mmk)) ; chunks_exact(2) ; remainder() ; simd_utils::mm256_load_and_clone_i16x2(k) ; _mm256_castsi128_si256(simd_utils::loadl_epi32(src_rows[0], x)) ; simd_utils::loadl_epi32(src_rows[1], x) ; _mm256_shuffle_epi8(source, sh1) ; _mm256_add_epi32(sss0, _mm256_madd_epi16(pix, mmk)) ; _mm256_castsi128_si256(simd_utils::loadl_epi32(src_rows[2], x)) ; simd_utils::loadl_epi32(src_rows[3], x) ; _mm256_shuffle_epi8(source, sh1) ; _mm256_add_epi32(sss1, _mm256_madd_epi16(pix, mmk)) ; first() ; _mm256_set1_epi32(k as i32) ; _mm256_castsi128_si256(simd_utils::loadl_epi16(src_rows[0], x)) ; simd_utils::loadl_epi16(src_rows[1], x) ; _mm256_shuffle_epi8(source, sh1) ; _mm256_add_epi32(sss0, _mm256_madd_epi16(pix, mmk)) ; _mm256_castsi128_si256(simd_utils::loadl_epi16(src_rows[2], x)) ; simd_utils::loadl_epi16(src_rows[3], x) ; _mm256_shuffle_epi8(source, sh1) ; _mm256_add_epi32(sss1, _mm256_madd_epi16(pix, mmk)) ; _mm256_extracti128_si256::<0>(sss0) ; _mm256_extracti128_si256::<1>(sss0) ; set_dst_pixel(lo128, dst_rows[0], dst_x, normalizer) ; set_dst_pixel(hi128, dst_rows[1], dst_x, normalizer) ; _mm256_extracti128_si256::<0>(sss1) ; _mm256_extracti128_si256::<1>(sss1) ; set_dst_pixel(lo128, dst_rows[2], dst_x, normalizer) ; set_dst_pixel(hi128, dst_rows[3], dst_x, normalizer)" ∧
+    Fir.Gen.u8x2_avx2_set_dst_pixel = Fir.Gen.u8x2_sse4_set_dst_pixel := by
+  constructor
+  · rfl
+  · rfl
 
 end Fir.C02
